@@ -159,12 +159,6 @@ Definition append_tasks (qs : list qstate) (ts : list task) : list qstate :=
 
 (* ---- handler pieces ---- *)
 
-Definition is_sync (t : task) : bool :=
-  match t_btype t, t_ctxs t with
-  | BKube, c :: _ => match c_kind c with KSync => true | _ => false end
-  | _, _ => false
-  end.
-
 (* compaction: a grouped context is dropped iff the next one has the same group *)
 Fixpoint compact (l : list ctx) : list ctx :=
   match l with
@@ -177,24 +171,37 @@ Fixpoint compact (l : list ctx) : list ctx :=
       end
   end.
 
-(* tasks immediately following the head for the same hook and of the same task type *)
+(* tasks immediately following the head for the same hook and of the same task type;
+   when the head is a Synchronization, combining stops at a Synchronization whose
+   ExecuteOnSynchronization is false (stopCombineFn, repair F9) *)
+Definition is_sync (t : task) : bool :=
+  match t_btype t, t_ctxs t with
+  | BKube, c :: _ => match c_kind c with KSync => true | _ => false end
+  | _, _ => false
+  end.
+
+Definition same_ttype (a b : ttype) : bool :=
+  match a, b with
+  | HookRun, HookRun | EnableKube, EnableKube | EnableSched, EnableSched => true
+  | _, _ => false
+  end.
+
 Fixpoint take_block (t : task) (l : list task) : list task * list task :=
   match l with
   | [] => ([], [])
   | x :: r =>
-      if N.eqb (t_hook x) (t_hook t) && match t_type x, t_type t with
-                                        | HookRun, HookRun | EnableKube, EnableKube
-                                        | EnableSched, EnableSched => true
-                                        | _, _ => false end
+      if N.eqb (t_hook x) (t_hook t) && same_ttype (t_type x) (t_type t)
+         && negb (is_sync t && is_sync x && negb (t_execsync x))
       then let (b, rest) := take_block t r in (x :: b, rest)
       else ([], l)
   end.
 
-Definition set_ctxs_mids (t : task) (cs : list ctx) (ms : list N) : task :=
-  mkTask (t_type t) (t_hook t) (t_btype t) cs (t_allow t) (t_group t) ms
+Definition set_combined (t : task) (cs : list ctx) (ms : list N) (allow : bool) : task :=
+  mkTask (t_type t) (t_hook t) (t_btype t) cs allow (t_group t) ms
          (t_execsync t) (t_queue t) (t_fail t).
 
-(* combineBindingContextForHook on head [t] of queue [t :: rest]: new head, remaining queue *)
+(* combineBindingContextForHook on head [t] of queue [t :: rest]: new head, remaining queue.
+   The combined task allows failure only if every merged task does (repair F6). *)
 Definition combine (t : task) (rest : list task) : task * list task :=
   let (block, rest') := take_block t rest in
   match block with
@@ -202,7 +209,7 @@ Definition combine (t : task) (rest : list task) : task * list task :=
   | _ =>
       let cs := compact (t_ctxs t ++ flat_map t_ctxs block) in
       let ms := t_mids t ++ flat_map t_mids block in
-      (set_ctxs_mids t cs ms, rest')
+      (set_combined t cs ms (t_allow t && forallb t_allow block), rest')
   end.
 
 Definition should_run (v0 : bool) (t : task) : bool :=
